@@ -9,3 +9,11 @@ claim(
     "DESIGN.md section 2 C01",
 )
 na("C14", "purely numerical post-conditions of the mesh generators (monotone coordinates, extents, node-for-node equality); no abstract domain in reach bounds them without evaluating the generators")
+
+claim(
+    "C03",
+    "Static: decides, per component method and option valuation, that every read-modify-write of persistent storage (outputs, residuals, partials, self.*) is preceded in the same call by a plain store covering the region (typestate), and that no code writes state outside the instance (module globals, class attributes, mutable defaults). Does not decide solver-level hysteresis.",
+    TB,
+    "typestate (STALE->FRESH per storage cell) over the abstract interpreter's store events with symbolic region coverage; effect analysis for writes outside the instance",
+    "DESIGN.md section 2 C03",
+)
